@@ -876,18 +876,25 @@ def c06(tier, seed):
                  {"path": ff_path(nm, "0000b"), "text": failfile_text([0] * 12)},                 # now passes
                  {"path": ff_path(nm, "0000c"), "text": failfile_text([9, 9, 9], version="v0.0.1")},
                  {"path": ff_path(nm, "0000d"), "text": "garbage"},
-                 {"path": ff_path(nm, "0000e"), "text": failfile_text([1 << 63])}]
+                 {"path": ff_path(nm, "0000e"), "text": failfile_text([1 << 63])},
+                 {"path": ff_path(nm, "0000f"), "link": "no-such-file"},                           # a dangling symbolic link
+                 {"path": ff_path(nm, "0000g"), "dir": True}]
         rng.shuffle(stale)
-        runs = [{}, {"files": stale[:rng.randrange(1, 6)], "expect": "replay_prev"}]
+        runs = [{}, {"files": stale[:rng.randrange(1, 8)], "expect": "replay_prev"}]
         out.append(scenario("c06-stale-%d" % i, {"body": t_threshold("Int64", 1000)}, {"checks": 100, "seed": rng.randrange(1, 1 << 64)}, runs=runs, name=nm,
                             tag={"log": "nothing", "body": "threshold", "testname": nm, "stale": True}))
     # an explicit -rapid.failfile is tried before the files found in the test's directory
     for i in range(4 if tier == "quick" else 40):
         body = t_threshold("Int64", 1000)
         runs = [{"flags": {"seed": str(rng.randrange(1, 1 << 64)), "shrinktime": "0s"}},
-                {"stashPrev": True, "flags": {"seed": str(rng.randrange(1, 1 << 64))}},
-                {"failfileRun": 1, "expect": "replay_prev", "expectRun": 1}]
+                {"stashPrev": True, "stashDir": ["stash", "art [job 7]", "a*b?c", "back\\slash"][i % 4], "flags": {"seed": str(rng.randrange(1, 1 << 64))}},
+                {"failfileRun": 1, "expect": "replay_prev", "expectRun": 1}]      # (the path given with the flag is a path, whatever characters it contains)
         out.append(scenario("c06-explicit-%d" % i, {"body": body}, {"checks": 100}, runs=runs, name="TestExplicit", tag={"explicit": True}))
+    # -rapid.nofailfile only keeps Check from WRITING fail files: the persisted failure is still found and replayed first
+    for i in range(2 if tier == "quick" else 12):
+        runs = [{}, {"flags": {"nofailfile": "true"}, "expect": "replay_prev"}, {"expect": "replay_prev", "expectRun": 1}]
+        out.append(scenario("c06-nofailfile-rerun-%d" % i, {"body": t_threshold("Int64", 1000)}, {"checks": 100, "seed": rng.randrange(1, 1 << 64)},
+                            runs=runs, name="TestNoFailFileRerun", tag={"explicit": False, "rerun": "nofailfile"}))
     # the persisted failure is found and replayed also when -rapid.failfile names some other (stale) file
     for i in range(2 if tier == "quick" else 16):
         path = "elsewhere/other.fail"
@@ -1006,6 +1013,13 @@ def c17(tier, seed):
                                                      "flags": {"nofailfile": "false"}, "expect": "replay_prev"}]
         out.append(scenario("c17-namesake-%d" % i, {"body": t_threshold("Int64", 1000)}, {"checks": 100, "seed": rng.randrange(1, 1 << 64), "shrinktime": "0s"},
                             runs=runs, name="TestNamesake", tag={"prop": "failing", "kinds": ["explicit namesake"]}))
+    # unusable entries that cannot even be opened (a dangling symbolic link, a directory) and sort before the persisted failure do not keep it from being replayed
+    for i in range(3 if tier == "quick" else 20):
+        nm = "TestUnstatable"
+        bad = [{"path": ff_path(nm, "0000a"), "link": "no-such-file"}, {"path": ff_path(nm, "0000b"), "dir": True}, {"path": ff_path(nm, "0000c"), "link": ff_path(nm, "0000c")[len("testdata/"):]}]
+        runs = [{"flags": {"nofailfile": "false"}}, {"files": bad[i % 3:] + bad[:i % 3][:i % 2], "flags": {"nofailfile": "false"}, "expect": "replay_prev"}]
+        out.append(scenario("c17-unstatable-%d" % i, {"body": t_threshold("Int64", 1000)}, {"checks": 100, "seed": rng.randrange(1, 1 << 64), "shrinktime": "0s"},
+                            runs=runs, name=nm, tag={"prop": "failing", "kinds": ["dangling link / directory before the usable file"]}))
     # truncations of a real recording of the same property (every few words): each is well-formed and of the current version,
     # and replays to "no longer valid" (or passes); none may change the run
     for i in range(6 if tier == "quick" else 60):
